@@ -78,7 +78,56 @@ fn finite_cases(quick: bool, max_leaves: usize) -> Vec<Case> {
             }
         }
     }
+    // static goals: the `Goal::succeed()` / `Goal::fail()` objects (what `true`, `false`,
+    // `fail()` and collapsed conjunctions compile to, recognisable when an operator is built) in
+    // one or two leaf positions of every 2- and 3-leaf shape
+    for n in 2..=3usize {
+        for sh in shapes(n, &ops, 0) {
+            for mask in 1u32..(1 << n) {
+                let k = mask.count_ones() as usize;
+                if k > 2 {
+                    continue;
+                }
+                for sf in product(&[Tr::Fail, Tr::Succeed], k) {
+                    let mut it = sf.iter();
+                    let mut t = sh.clone();
+                    for pos in 0..n {
+                        if mask & (1 << pos) != 0 {
+                            t = replace_leaf(&t, pos as u16, it.next().unwrap());
+                        }
+                    }
+                    let live: Vec<usize> = (0..n).filter(|p| mask & (1 << p) == 0).collect();
+                    for a in product(&reduced, live.len()) {
+                        // replaced positions keep a placeholder leaf that the tree never mentions
+                        let mut leaves = vec![reduced[0].clone(); n];
+                        for (j, p) in live.iter().enumerate() {
+                            leaves[*p] = a[j].clone();
+                        }
+                        out.push(Case { tree: t.clone(), leaves });
+                    }
+                }
+            }
+        }
+    }
     out
+}
+
+fn replace_leaf(t: &Tr, pos: u16, with: &Tr) -> Tr {
+    let r = |x: &Tr| replace_leaf(x, pos, with);
+    match t {
+        Tr::Leaf(i) if *i == pos => with.clone(),
+        Tr::Leaf(_) | Tr::Succeed | Tr::Fail => t.clone(),
+        Tr::Conj(v) => Tr::Conj(v.iter().map(r).collect()),
+        Tr::Conde(v) => Tr::Conde(v.iter().map(r).collect()),
+        Tr::Disj(v) => Tr::Disj(v.iter().map(r).collect()),
+        Tr::Fresh(x) => Tr::Fresh(Box::new(r(x))),
+        Tr::Closure(x) => Tr::Closure(Box::new(r(x))),
+        Tr::Dfs(x) => Tr::Dfs(Box::new(r(x))),
+        Tr::Onceo(x) => Tr::Onceo(Box::new(r(x))),
+        Tr::Anyo(x) => Tr::Anyo(Box::new(r(x))),
+        Tr::Conda(c) => Tr::Conda(c.iter().map(|(h, b)| (r(h), r(b))).collect()),
+        Tr::Condu(c) => Tr::Condu(c.iter().map(|(h, b)| (r(h), r(b))).collect()),
+    }
 }
 
 struct CaseOut {
